@@ -11,7 +11,7 @@ ELEMENT = {'ifd', 'arith_c', 'mod_c', 'unary_num', 'ceilfloor', 'round', 'power'
 
 
 def main(ck):
-    pr = ck.proof('C01', extra_modules=())
+    pr = ck.proof('C01', extra_modules=('VtlModel.Props.C01Cond',))
     q = ck.quick()
     res = []
     res += CC.run_stream(ck, "single-operator", int(os.environ.get("VERIF_N", 250)) if q else 3000, dict(allow=ELEMENT), dict(depth=1))
